@@ -14,7 +14,7 @@
    numbers with the true DFT are an instance, and C19_nonvacuous exhibits a computable one (Qc, exact 4-point DFT).
    Frequencies are carried as the integer multiplier k of fs/n (C19_freq_order: for fs > 0 they order like k);
    times are integer nanosecond ticks; the step st = (1-overlap)*L of _overlap_split is a whole number of ticks. *)
-From Coq Require Import QArith Qcanon Permutation Field_theory.
+From Coq Require Import QArith Qcanon Permutation Field_theory Lia.
 From Verif Require Import Base.Prelude Model.Restrict Model.Count Model.Slice Model.Spectrum
   Proofs.SpectrumIndexProofs Proofs.SpectrumFieldProofs Proofs.SpectrumProofs Proofs.SpectrumExample.
 Open Scope Z_scope.
@@ -78,6 +78,22 @@ Print Assumptions C19_onesided_mask_exact.
 Theorem C19_onesided_rows_below_nyquist : forall n k, In k (krange false n) -> 0 <= k /\ 2 * k < Z.of_nat n.
 Proof. exact onesided_rows_below_nyquist. Qed.
 Print Assumptions C19_onesided_rows_below_nyquist.
+
+(* the convention this implies, stated outright (recorded, not a clause of the property): for even n = 2m > 0 the Nyquist multiplier
+   is listed by the full-range form (as -m, where np.fft.fftfreq files it) and under NEITHER sign by the one-sided form - the
+   one-sided FFT / PSD of an even-length signal has no Nyquist row (its total is the full total minus that bin: C19_onesided_sum_even
+   below; the one-sided PSD of [1,-1,1,-1] is identically 0).  The harness oracle accepts both this form and one that appends the
+   Nyquist row at +fs/2 undoubled. *)
+Theorem C19_onesided_drops_nyquist : forall m : nat, (0 < m)%nat ->
+  In (- Z.of_nat m) (krange true (2 * m)) /\ ~ In (Z.of_nat m) (krange false (2 * m)) /\ ~ In (- Z.of_nat m) (krange false (2 * m)).
+Proof.
+  intros m Hm. unfold krange.
+  assert (E1 : ((2 * m) / 2 = m)%nat) by (rewrite Nat.mul_comm; apply Nat.div_mul; lia).
+  assert (E2 : ((2 * m + 1) / 2 = m)%nat).
+  { rewrite (Nat.mul_comm 2 m), Nat.div_add_l by lia. cbn. lia. }
+  rewrite E1, E2, !zrange_In. lia.
+Qed.
+Print Assumptions C19_onesided_drops_nyquist.
 
 (* HISTORY (pre-repair guard, Model.mask_orig = (index != 0) & (index < fs/2 - 1e-6), not used by the model any more):
    it was exact only when the frequency step exceeds 2e-6 ... *)
